@@ -213,7 +213,7 @@ pub struct Site {
     pub ordinal: u32,
 }
 
-pub const BUDGET: u64 = 300_000;
+pub const BUDGET: u64 = 60_000;
 
 pub fn initial_store(h: &History) -> FsStore {
     let mut fs = FsStore::default();
